@@ -20,6 +20,10 @@ def pick_path(rnd, t, v):
     typ, val, bits = t, v, 0
     while True:
         k = typ["k"]
+        if k in ("struct", "arr") and not (isinstance(val, dict) and ("vals" if k == "struct" else "items") in val):
+            # the object does not have the shape of its type (a changed library can do that): nothing to pick below this point -
+            # the frame condition reports the value itself
+            return path, typ, 0
         if k == "struct":
             i = rnd.randrange(len(typ["fields"]))
             f = typ["fields"][i]
